@@ -314,7 +314,7 @@ theorem C20_backtrackCut_literal (s : State) (count : Nat) :
           apply cutKeep_congr
           intro x
           rw [Bool.eq_iff_iff]
-          simp [List.contains_iff_mem]
+          simp
         rw [hcg]
         generalize cutKeep (((s.oldsave.drop (s.nsave + S)).take b.nsave).map (·.1))
               (s.oldsave.take (s.nsave + S)).reverse = kept
@@ -335,5 +335,352 @@ theorem C20_backtrackCut_literal (s : State) (count : Nat) :
             simp only [c3, ↓reduceIte, Option.bind_none]
           · simp only [c2, ↓reduceIte, Option.bind_none]
         · simp only [c1, ↓reduceIte, Option.bind_none]
+
+/-! ### Non-vacuity: a log on which the loop really swaps
+
+Rust-oriented vector (oldest first) `[(0,10) | (0,11), (1,12), (0,13), (2,14)]`, target segment
+`v[0..1]`. `ix = 1`: slot 0 seen, skipped. `ix = 2`: slot 1 is new and `oldsave_ix = 1 ≠ ix`:
+`swap(1, 2)`. `ix = 3`: skipped. `ix = 4`: slot 2 is new, `swap(2, 4)`. Truncate to 3. -/
+
+example : swapAt [(0, 10), (0, 11), (1, 12), (0, 13), (2, 14)] 1 2 =
+    some [(0, 10), (1, 12), (0, 11), (0, 13), (2, 14)] := by decide
+
+/-- the loop state after the last iteration, before `truncate`: the rejected entries are in
+    swapped order behind `oldsave_ix = 3` -/
+example : (List.range' 1 4).foldlM cutLoopBody (1, [0], [(0, 10), (0, 11), (1, 12), (0, 13), (2, 14)]) =
+    some (3, [2, 1, 0], [(0, 10), (1, 12), (2, 14), (0, 13), (0, 11)]) := by decide
+
+example : cutLoop [(0, 10), (0, 11), (1, 12), (0, 13), (2, 14)] 0 1 =
+    some ([(0, 10), (1, 12), (2, 14)], 3) := by decide
+
+example : cutKeep [0] [(0, 11), (1, 12), (0, 13), (2, 14)] = [(1, 12), (2, 14)] := by decide
+
+/-- the same log inside a state (model orientation: newest first), three alternatives, commit to
+    height 1 -/
+def exCut : State :=
+  ⟨[5, 6, 7], [⟨3, 3, 1⟩, ⟨2, 2, 2⟩, ⟨1, 1, 1⟩, ⟨0, 0, 0⟩], [(2, 14), (0, 13), (1, 12), (0, 11), (0, 10)], 1, 3, 10⟩
+
+example : backtrackCutLit exCut 1 =
+    some ⟨[5, 6, 7], [⟨0, 0, 0⟩], [(2, 14), (1, 12), (0, 10)], 3, 3, 10⟩ := by decide
+example : exCut.backtrackCut 1 = backtrackCutLit exCut 1 := by decide
+/-- a panicking input (`count` above the height) panics on both sides -/
+example : backtrackCutLit exCut 7 = none ∧ exCut.backtrackCut 7 = none := by decide
+
+/-! ## Part 2: operation sequences with the auxiliary stack -/
+
+/-- the operation alphabet of Proofs/C20.lean (`push`, `pop`, `save`, `cut`) extended with the
+    auxiliary-stack operations. (Proofs/C20.lean cannot be imported here together with
+    Lemmas/AuxStack.lean — both `Fancy.run` — so the four old letters are repeated.) -/
+inductive Op2 where
+  | push (pc ix : Nat)          -- create an alternative
+  | pop                         -- abandon the current alternative
+  | save (slot val : Nat)       -- write a slot
+  | cut (count : Nat)           -- `backtrack_cut(count)`
+  | enterAtomic                 -- `BeginAtomic`: `stack_push(backtrack_count())`
+  | commitAtomic                -- `EndAtomic`: `let count = stack_pop(); backtrack_cut(count)`
+  | stackPush (v : Nat)         -- raw `stack_push(v)`
+  | stackPop                    -- raw `stack_pop()`
+deriving Repr, DecidableEq
+
+/-- one operation on the undo-log state, with its observable output (`pop`: the `(pc, ix)` of the
+    alternative, `stackPop`: the popped value); `none`: the Rust code panics / reports overflow -/
+def applyOp2 (s : State) : Op2 → Option (State × List Nat)
+  | .push pc ix => match s.push pc ix with | .ok s' => some (s', []) | .overflow => none
+  | .pop => s.pop.map fun r => (r.1, [r.2.1, r.2.2])
+  | .save slot val => (s.save slot val).map fun s' => (s', [])
+  | .cut count => (s.backtrackCut count).map fun s' => (s', [])
+  | .enterAtomic => (s.stackPush s.backtrackCount).map fun s' => (s', [])
+  | .commitAtomic => s.stackPop.bind fun r => (r.1.backtrackCut r.2).map fun s' => (s', [])
+  | .stackPush v => (s.stackPush v).map fun s' => (s', [])
+  | .stackPop => s.stackPop.map fun r => (r.1, [r.2])
+
+/-- run a sequence, concatenating the outputs -/
+def run2 (s : State) : List Op2 → Option (State × List Nat)
+  | [] => some (s, [])
+  | op :: ops => (applyOp2 s op).bind fun r1 => (run2 r1.1 ops).map fun r => (r.1, r1.2 ++ r.2)
+
+/-- one operation on the structured reference state (slots, auxiliary stack, branch stack of
+    whole copies); `none` when the operation makes no sense there -/
+def sApplyOp (maxStack : Nat) (σ : SState) : Op2 → Option (SState × List Nat)
+  | .push pc ix =>
+    if σ.stack.length < maxStack then some ({ σ with stack := ⟨pc, ix, σ.slots, σ.astk⟩ :: σ.stack }, [])
+    else none
+  | .pop =>
+    match σ.stack with
+    | [] => none
+    | b :: rest => some (⟨b.slots, b.astk, rest⟩, [b.pc, b.ix])
+  | .save slot val =>
+    if slot < σ.slots.length then some ({ σ with slots := σ.slots.set slot val }, []) else none
+  | .cut count =>
+    if count ≤ σ.stack.length then some ({ σ with stack := σ.stack.drop (σ.stack.length - count) }, [])
+    else none
+  | .enterAtomic => some ({ σ with astk := σ.stack.length :: σ.astk }, [])
+  | .commitAtomic =>
+    match σ.astk with
+    | [] => none
+    | c :: rest =>
+      if c ≤ σ.stack.length then
+        some ({ σ with astk := rest, stack := σ.stack.drop (σ.stack.length - c) }, [])
+      else none
+  | .stackPush v => some ({ σ with astk := v :: σ.astk }, [])
+  | .stackPop =>
+    match σ.astk with
+    | [] => none
+    | v :: rest => some ({ σ with astk := rest }, [v])
+
+def srun (maxStack : Nat) (σ : SState) : List Op2 → Option (SState × List Nat)
+  | [] => some (σ, [])
+  | op :: ops => (sApplyOp maxStack σ op).bind fun r1 => (srun maxStack r1.1 ops).map fun r => (r.1, r1.2 ++ r.2)
+
+/-- one step of the refinement -/
+theorem C20_step_all {nS : Nat} {s : State} {σ : SState} (h : Inv2 nS s σ) (op : Op2) (σ' : SState)
+    (out : List Nat) (ha : sApplyOp s.maxStack σ op = some (σ', out)) :
+    ∃ s', applyOp2 s op = some (s', out) ∧ Inv2 nS s' σ' ∧ s'.maxStack = s.maxStack := by
+  cases op with
+  | push pc ix =>
+    simp only [sApplyOp] at ha
+    split at ha
+    · rename_i hlt
+      cases ha
+      obtain ⟨s', e1, e2, _, e4⟩ := rep_push_ok h pc ix hlt
+      exact ⟨s', by simp only [applyOp2, e1], e2, e4⟩
+    · cases ha
+  | pop =>
+    simp only [sApplyOp] at ha
+    split at ha
+    · cases ha
+    · rename_i b rest hs
+      cases ha
+      obtain ⟨s', e1, e2, _, e4⟩ := rep_pop h b rest hs
+      exact ⟨s', by simp only [applyOp2, e1, Option.map_some], e2, e4⟩
+  | save slot val =>
+    simp only [sApplyOp] at ha
+    split at ha
+    · rename_i hlt
+      cases ha
+      obtain ⟨s', e1, e2, _, e4⟩ := rep_save h slot val (by rw [← h.rep.1.1]; exact hlt)
+      exact ⟨s', by simp only [applyOp2, e1, Option.map_some], e2, e4⟩
+    · cases ha
+  | cut count =>
+    simp only [sApplyOp] at ha
+    split at ha
+    · rename_i hle
+      cases ha
+      obtain ⟨s', e1, e2, _, e4⟩ := rep_cut h count hle
+      exact ⟨s', by simp only [applyOp2, e1, Option.map_some], e2, e4⟩
+    · cases ha
+  | enterAtomic =>
+    simp only [sApplyOp, Option.some.injEq, Prod.mk.injEq] at ha
+    obtain ⟨rfl, rfl⟩ := ha
+    obtain ⟨s', e1, e2, _, e4⟩ := rep_stackPush h s.backtrackCount
+    rw [rep_backtrackCount h] at e1 e2
+    exact ⟨s', by simp only [applyOp2, rep_backtrackCount h, e1, Option.map_some], e2, e4⟩
+  | commitAtomic =>
+    simp only [sApplyOp] at ha
+    split at ha
+    · cases ha
+    · rename_i c rest hs
+      split at ha
+      · rename_i hle
+        cases ha
+        obtain ⟨s1, e1, e2, _, e4⟩ := rep_stackPop h c rest hs
+        obtain ⟨s', g1, g2, _, g4⟩ := rep_cut e2 c hle
+        exact ⟨s', by simp only [applyOp2, e1, Option.bind_some, g1, Option.map_some], g2, by rw [g4, e4]⟩
+      · cases ha
+  | stackPush v =>
+    simp only [sApplyOp, Option.some.injEq, Prod.mk.injEq] at ha
+    obtain ⟨rfl, rfl⟩ := ha
+    obtain ⟨s', e1, e2, _, e4⟩ := rep_stackPush h v
+    exact ⟨s', by simp only [applyOp2, e1, Option.map_some], e2, e4⟩
+  | stackPop =>
+    simp only [sApplyOp] at ha
+    split at ha
+    · cases ha
+    · rename_i v rest hs
+      cases ha
+      obtain ⟨s', e1, e2, _, e4⟩ := rep_stackPop h v rest hs
+      exact ⟨s', by simp only [applyOp2, e1, Option.map_some], e2, e4⟩
+
+/-- **C20, all operations.** For EVERY sequence over the extended alphabet on which the structured
+    reference (slots / auxiliary stack / whole copies) is defined, the undo-log state with the
+    auxiliary stack stored inside the slot vector is defined too, lands in a state related by
+    `Inv2`, and yields the same outputs. -/
+theorem C20_refines_all {nS : Nat} (ops : List Op2) {s : State} {σ : SState} (h : Inv2 nS s σ)
+    (σ' : SState) (out : List Nat) (ha : srun s.maxStack σ ops = some (σ', out)) :
+    ∃ s', run2 s ops = some (s', out) ∧ Inv2 nS s' σ' ∧ s'.maxStack = s.maxStack := by
+  induction ops generalizing s σ out with
+  | nil =>
+    simp only [srun, Option.some.injEq, Prod.mk.injEq] at ha
+    obtain ⟨rfl, rfl⟩ := ha
+    exact ⟨s, rfl, h, rfl⟩
+  | cons op ops ih =>
+    simp only [srun] at ha
+    cases h1 : sApplyOp s.maxStack σ op with
+    | none => simp [h1] at ha
+    | some r1 =>
+      obtain ⟨σ1, o1⟩ := r1
+      simp only [h1, Option.bind_some] at ha
+      cases h2 : srun s.maxStack σ1 ops with
+      | none => simp [h2] at ha
+      | some r2 =>
+        obtain ⟨σ2, o2⟩ := r2
+        simp only [h2, Option.map_some, Option.some.injEq, Prod.mk.injEq] at ha
+        obtain ⟨rfl, rfl⟩ := ha
+        obtain ⟨s1, e1, e2, e3⟩ := C20_step_all h op σ1 o1 h1
+        rw [← e3] at h2
+        obtain ⟨s', g1, g2, g3⟩ := ih e2 o2 h2
+        exact ⟨s', by simp only [run2, e1, Option.bind_some, g1, Option.map_some], g2, by rw [g3, e3]⟩
+
+/-- every run from the initial state -/
+theorem C20_reachable_all (nS m : Nat) (ops : List Op2) (σ' : SState) (out : List Nat)
+    (ha : srun m ⟨List.replicate nS UNSET, [], []⟩ ops = some (σ', out)) :
+    ∃ s', run2 (State.new nS m) ops = some (s', out) ∧ Inv2 nS s' σ' :=
+  let ⟨s', a, b, _⟩ := C20_refines_all ops (inv2_init nS m) σ' out ha
+  ⟨s', a, b⟩
+
+/-- what `Inv2` says about the concrete vector: its first `nS` cells are the reference slots -/
+theorem Inv2.slots_eq {nS : Nat} {s : State} {σ : SState} (h : Inv2 nS s σ) : s.saves.take nS = σ.slots :=
+  h.rep.1.2.1
+
+theorem srun_append (m : Nat) (l1 l2 : List Op2) (σ σ1 : SState) (o1 : List Nat)
+    (h : srun m σ l1 = some (σ1, o1)) :
+    srun m σ (l1 ++ l2) = (srun m σ1 l2).map fun r => (r.1, o1 ++ r.2) := by
+  induction l1 generalizing σ o1 with
+  | nil =>
+    simp only [srun, Option.some.injEq, Prod.mk.injEq] at h
+    obtain ⟨rfl, rfl⟩ := h
+    simp only [List.nil_append]
+    cases srun m σ l2 <;> simp
+  | cons op l1 ih =>
+    simp only [srun] at h
+    cases h1 : sApplyOp m σ op with
+    | none => simp [h1] at h
+    | some r1 =>
+      obtain ⟨σa, oa⟩ := r1
+      simp only [h1, Option.bind_some] at h
+      cases h2 : srun m σa l1 with
+      | none => simp [h2] at h
+      | some r2 =>
+        obtain ⟨σb, ob⟩ := r2
+        simp only [h2, Option.map_some, Option.some.injEq, Prod.mk.injEq] at h
+        obtain ⟨rfl, rfl⟩ := h
+        simp only [List.cons_append, srun, h1, Option.bind_some, ih σa ob h2]
+        cases srun m σb l2 <;> simp
+
+/-! ### The property's clauses -/
+
+/-- the reference run of a whole atomic group `enterAtomic :: body ++ [commitAtomic]`, for a body
+    that ends with the matching enter's record on top of the auxiliary stack and with the
+    alternatives of enter time still below the ones created since -/
+theorem srun_group (m : Nat) (σ0 σ2 : SState) (body : List Op2) (out : List Nat) (new : List SBranch)
+    (hbody : srun m { σ0 with astk := σ0.stack.length :: σ0.astk } body = some (σ2, out))
+    (hastk : σ2.astk = σ0.stack.length :: σ0.astk) (hstk : σ2.stack = new ++ σ0.stack) :
+    srun m σ0 (.enterAtomic :: body ++ [.commitAtomic]) = some (⟨σ2.slots, σ0.astk, σ0.stack⟩, out) := by
+  have hdrop : σ2.stack.drop (σ2.stack.length - σ0.stack.length) = σ0.stack := by
+    rw [hstk, List.length_append, Nat.add_sub_cancel, List.drop_left]
+  have hle : σ0.stack.length ≤ σ2.stack.length := by rw [hstk, List.length_append]; omega
+  simp only [List.cons_append, srun, sApplyOp, Option.bind_some, srun_append m body _ _ σ2 out hbody, hastk,
+    hle, ↓reduceIte, Option.map_some, hdrop, List.nil_append, List.append_nil]
+
+/-- **Commit discards exactly the alternatives created since the matching enter.** Let the group
+    be entered in a state with branch stack `σ0.stack`, and let its body (ANY operation sequence)
+    reach, in the reference, a state whose auxiliary stack has the enter record on top and whose
+    branch stack is `new ++ σ0.stack` (`new` = the alternatives created since). Then the real
+    `EndAtomic` is defined, the branch stack becomes exactly the one of enter time — all of `new`
+    gone, nothing older touched, copies included —, the auxiliary stack is back to its enter-time
+    value, and the slots keep their CURRENT values `σ2.slots`. -/
+theorem C20_commit_discards_exactly {nS : Nat} {s : State} {σ0 : SState} (h : Inv2 nS s σ0)
+    (body : List Op2) (σ2 : SState) (out : List Nat) (new : List SBranch)
+    (hbody : srun s.maxStack { σ0 with astk := σ0.stack.length :: σ0.astk } body = some (σ2, out))
+    (hastk : σ2.astk = σ0.stack.length :: σ0.astk) (hstk : σ2.stack = new ++ σ0.stack) :
+    ∃ s', run2 s (.enterAtomic :: body ++ [.commitAtomic]) = some (s', out) ∧
+      Inv2 nS s' ⟨σ2.slots, σ0.astk, σ0.stack⟩ ∧
+      s'.saves.take nS = σ2.slots ∧ s'.stack.length = s.stack.length := by
+  obtain ⟨s', e1, e2, _⟩ := C20_refines_all _ h _ out (srun_group _ σ0 σ2 body out new hbody hastk hstk)
+  exact ⟨s', e1, e2, e2.slots_eq, by rw [← e2.stack_length, ← h.stack_length]⟩
+
+/-- **A later backtrack still restores the pre-group values.** If an alternative `b` existed
+    BEFORE the group was entered, then after the whole group (any body as above, with whatever slot
+    writes, nested alternatives and compaction) has been committed, abandoning lands exactly in
+    `b`'s alternative: its `(pc, ix)`, every slot and the auxiliary stack at the values they had
+    when `b` was created. -/
+theorem C20_backtrack_after_commit_restores {nS : Nat} {s : State} {σ0 : SState} (h : Inv2 nS s σ0)
+    (b : SBranch) (rest : List SBranch) (hb : σ0.stack = b :: rest)
+    (body : List Op2) (σ2 : SState) (out : List Nat) (new : List SBranch)
+    (hbody : srun s.maxStack { σ0 with astk := σ0.stack.length :: σ0.astk } body = some (σ2, out))
+    (hastk : σ2.astk = σ0.stack.length :: σ0.astk) (hstk : σ2.stack = new ++ σ0.stack) :
+    ∃ s', run2 s ((.enterAtomic :: body ++ [.commitAtomic]) ++ [.pop]) = some (s', out ++ [b.pc, b.ix]) ∧
+      Inv2 nS s' ⟨b.slots, b.astk, rest⟩ ∧ s'.saves.take nS = b.slots := by
+  have hg := srun_group _ σ0 σ2 body out new hbody hastk hstk
+  have hall : srun s.maxStack σ0 ((.enterAtomic :: body ++ [.commitAtomic]) ++ [.pop]) =
+      some (⟨b.slots, b.astk, rest⟩, out ++ [b.pc, b.ix]) := by
+    rw [srun_append _ _ _ _ _ _ hg]
+    simp only [srun, sApplyOp, hb, Option.bind_some, Option.map_some, List.append_nil]
+  obtain ⟨s', e1, e2, _⟩ := C20_refines_all _ h _ _ hall
+  exact ⟨s', e1, e2, e2.slots_eq⟩
+
+/-- a single commit, no assumption on how the state was reached: with record `c` on top of the
+    auxiliary stack, exactly the `c` oldest alternatives survive, the slots are untouched -/
+theorem C20_commit_step {nS : Nat} {s : State} {σ : SState} (h : Inv2 nS s σ) (c : Nat) (rest : List Nat)
+    (hs : σ.astk = c :: rest) (hc : c ≤ σ.stack.length) :
+    ∃ s', applyOp2 s .commitAtomic = some (s', []) ∧
+      Inv2 nS s' ⟨σ.slots, rest, σ.stack.drop (σ.stack.length - c)⟩ ∧
+      s'.saves.take nS = σ.slots ∧ s'.stack.length = c := by
+  have ha : sApplyOp s.maxStack σ .commitAtomic =
+      some (⟨σ.slots, rest, σ.stack.drop (σ.stack.length - c)⟩, []) := by
+    simp only [sApplyOp, hs, hc, ↓reduceIte]
+  obtain ⟨s', e1, e2, _⟩ := C20_step_all h _ _ _ ha
+  refine ⟨s', e1, e2, e2.slots_eq, ?_⟩
+  rw [← e2.stack_length]
+  simp only [List.length_drop]
+  omega
+
+/-! ### Non-vacuity
+
+`exS` / `exσ` (Lemmas/AuxStack.lean): slots `[7, 8]`, auxiliary stack `[9]`, one pending
+alternative `⟨5, 1, [7, 8], []⟩`. The body writes both slots, creates two nested alternatives with
+writes to the same slot in between (so the commit's compaction has something to drop). -/
+
+def exBody : List Op2 := [.save 0 3, .push 6 2, .save 0 4, .stackPush 1, .push 7 3, .save 1 5, .stackPop]
+
+example : ∃ s', run2 exS (.enterAtomic :: exBody ++ [.commitAtomic]) = some (s', [1]) ∧
+    Inv2 2 s' ⟨[4, 5], [9], [⟨5, 1, [7, 8], []⟩]⟩ ∧ s'.saves.take 2 = [4, 5] ∧ s'.stack.length = 1 :=
+  C20_commit_discards_exactly exInv2 exBody ⟨[4, 5], [1, 9], _⟩ [1]
+    [⟨7, 3, [4, 8], [1, 1, 9]⟩, ⟨6, 2, [3, 8], [1, 9]⟩] (by decide) rfl rfl
+
+example : ∃ s', run2 exS ((.enterAtomic :: exBody ++ [.commitAtomic]) ++ [.pop]) = some (s', [1, 5, 1]) ∧
+    Inv2 2 s' ⟨[7, 8], [], []⟩ ∧ s'.saves.take 2 = [7, 8] :=
+  C20_backtrack_after_commit_restores exInv2 ⟨5, 1, [7, 8], []⟩ [] rfl exBody ⟨[4, 5], [1, 9], _⟩ [1]
+    [⟨7, 3, [4, 8], [1, 1, 9]⟩, ⟨6, 2, [3, 8], [1, 9]⟩] (by decide) rfl rfl
+
+/-- the same, executed: the concrete undo-log run and the reference run, from the initial state.
+    (At the commit the Rust-oriented log is `.. | (2,3), (0,7) | (0,3), (1,8), (2,4)`: `(0,3)` is
+    skipped, `(1,8)` is swapped down over it, `(2,4)` is skipped.) -/
+example : (run2 (State.new 2 10)
+      [.save 0 7, .save 1 8, .push 5 1, .enterAtomic, .save 0 3, .push 6 2, .save 0 4, .push 7 3, .save 1 5,
+       .commitAtomic]).map (fun r => (r.1.saves.take 2, r.1.stack.length, r.1.oldsave.take r.1.nsave, r.2)) =
+    some ([4, 5], 1, [(1, 8), (0, 7), (2, 3)], []) := by decide
+
+example : srun 10 ⟨List.replicate 2 UNSET, [], []⟩
+      [.save 0 7, .save 1 8, .push 5 1, .enterAtomic, .save 0 3, .push 6 2, .save 0 4, .push 7 3, .save 1 5,
+       .commitAtomic, .pop] = some (⟨[7, 8], [], []⟩, [5, 1]) := by decide
+
+example : (run2 (State.new 2 10)
+      [.save 0 7, .save 1 8, .push 5 1, .enterAtomic, .save 0 3, .push 6 2, .save 0 4, .push 7 3, .save 1 5,
+       .commitAtomic, .pop]).map (fun r => (r.1.saves.take 2, r.2)) = some ([7, 8], [5, 1]) := by decide
+
+/-- `C20_step_all` / `C20_commit_step` on a concrete state: enter, then commit at once -/
+example : ∃ s1 s', applyOp2 exS .enterAtomic = some (s1, []) ∧ applyOp2 s1 .commitAtomic = some (s', []) ∧
+    Inv2 2 s' exσ ∧ s'.stack.length = 1 := by
+  obtain ⟨s1, a1, a2, _⟩ := C20_step_all exInv2 .enterAtomic { exσ with astk := 1 :: exσ.astk } [] rfl
+  obtain ⟨s', b1, b2, _, b4⟩ := C20_commit_step a2 1 [9] rfl (by decide)
+  exact ⟨s1, s', a1, b1, b2, b4⟩
+
+/-- `C20_refines_all` / `C20_reachable_all`: the hypothesis holds for a sequence using every letter -/
+example : ∃ s', run2 (State.new 2 10)
+      [.save 0 7, .push 5 1, .stackPush 4, .enterAtomic, .push 6 2, .save 1 8, .cut 2, .commitAtomic,
+       .stackPop, .pop] = some (s', [4, 5, 1]) ∧
+    Inv2 2 s' ⟨[7, UNSET], [], []⟩ :=
+  C20_reachable_all 2 10 _ _ _ (by decide)
 
 end Fancy
